@@ -22,6 +22,8 @@ from dw import ipc
 from dw import targeted as _targeted  # noqa: F401
 from dw.backend import TERMINAL, Backend, VClock
 
+_child.import_all_sdk_modules()
+
 
 def match(ev: dict, pat: dict) -> bool:
     for k, v in pat.items():
@@ -46,6 +48,7 @@ class Execution:
         opts = scenario.get("opts", {})
         self.clock = VClock(k=opts.get("k", 50.0))
         self.backend = Backend(self.clock, input_payload=scenario.get("input", "{}"))
+        self.backend.timer_lag = float((scenario.get("world") or {}).get("timer_lag", 0.0))
         self.backend.on_apply = self._on_apply
         self.trace: list[dict] = []
         self.entries: dict[str, int] = {}
@@ -181,7 +184,7 @@ class Execution:
         timers = b.armed_timers()
         if timers:
             t0 = timers[0][0]
-            self.clock.advance_to(t0 + 0.001)
+            self.clock.advance_to(t0 + b.timer_lag + 0.001)
             if self.world.get("timers") == "one":
                 b.fire_timer(timers[0][1])
             else:
